@@ -1,6 +1,6 @@
 (* C16 - string <-> value conversion round-trips and rejects what does not fit.
    Statements only; proofs are in C16/Proofs*.v.  Model: C16/Model.v (strtoll/strtoull modelled per ISO C,
-   everything else mirrors src/string_convert.cpp / potassco/string_convert.h after the repairs 9fa71a8, 57fedb9, bbf7497).
+   everything else mirrors src/string_convert.cpp / potassco/string_convert.h after the repairs 0a62145, da09cdd, 1681dd2).
    Types: 0 bool, 1 char, 2 int, 3 unsigned, 4 long, 5 unsigned long, 6 long long, 7 unsigned long long, 8.. enums (LP64). *)
 Require Import V.Lib.Base V.Lib.Dec V.Gen.Consts_C16.
 Require Import V.C16.Model V.C16.Spec V.C16.ProofsBasic V.C16.ProofsRT V.C16.ProofsAcc V.C16.ProofsEnum V.C16.ProofsComp.
